@@ -167,7 +167,7 @@ func TestC22(t *testing.T) {
 		"statement k's postings are the difference between running the k-prefix and the (k-1)-prefix; the harness checks that prefixes extend each other",
 		"send [A *] over a source whose overdraft/max is in another asset is not modelled (counted as send-all-not-modelled)")
 	defer st.Write(t)
-	n := stats.N(3000, 30000)
+	n := stats.N(10000, 40000)
 	st.Set("requested_checks", n)
 	stats.Check(t, n, 22, func(rt *rapid.T) {
 		p := GenProgram(rt, Opts{MaxStmts: 4, MaxDepth: 3, BigAmount: true})
@@ -308,7 +308,7 @@ const ruleC23 = "same generator as C22; after each successful run every non-worl
 func TestC23(t *testing.T) {
 	st := stats.New("C23", "exploration", ruleC23)
 	defer st.Write(t)
-	n := stats.N(3000, 30000)
+	n := stats.N(10000, 40000)
 	st.Set("requested_checks", n)
 	stats.Check(t, n, 23, func(rt *rapid.T) {
 		p := GenProgram(rt, Opts{MaxStmts: 4, MaxDepth: 3, BigAmount: false})
